@@ -192,12 +192,14 @@ class Resolver:
         return None
 
     # ---- reachability --------------------------------------------------------------------------------
-    def reachable(self, roots: Iterable[FuncInfo], param_classes=None, limit: int = 5000) -> List[FuncInfo]:
+    def reachable(self, roots: Iterable[FuncInfo], param_classes=None, limit: int = 5000, stop=None) -> List[FuncInfo]:
         seen: Dict[int, FuncInfo] = {}
         stack = list(roots)
         while stack and len(seen) < limit:
             fn = stack.pop()
             if id(fn.node) in seen:
+                continue
+            if stop is not None and stop(fn):
                 continue
             seen[id(fn.node)] = fn
             for loc in self.local_defs(fn).values():
